@@ -15,7 +15,7 @@ out = {
     "summary": meta.get("summary"),
     "needs": meta.get("needs"),
     "demo_cmd": meta.get("demo_cmd"),
-    "author": "fresh sub-agent given only the property text and a scratch worktree of /repo (see /tmp/seed/PROMPT.md in DESIGN §11)",
+    "author": "fresh sub-agent given only the property text and a scratch worktree of /repo (prompt: seeded/PROMPT.md)",
     "author_ran": meta.get("ran"),
     "confirmed_by_coordinator": confirm,
     "checks_run_against_it": results,
